@@ -494,7 +494,7 @@ func c07PeekedByteIsCounted(c *Ctx) {
 			undec = true
 			return
 		}
-		if ret, ok := blk.Instrs[len(blk.Instrs)-1].(*ssa.Return); ok {
+		if ret, ok := blk.Instrs[len(blk.Instrs)-1].(*ssa.Return); ok && isReturn(blk.Instrs[len(blk.Instrs)-1]) {
 			n++
 			r := eval(unspill(ret, 0), edge, 0)
 			if !r.ok {
@@ -615,7 +615,7 @@ func c01BufferResetKeepsNothing(c *Ctx) {
 			// the pooled struct: the pointer obtained by asserting the interface parameter
 			var buf ssa.Value
 			forEachInstr(fn, false, func(_ *ssa.Function, in ssa.Instruction) {
-				if ta, ok := in.(*ssa.TypeAssert); ok && ta.X == ssa.Value(fn.Params[1]) {
+				if ta, ok := in.(*ssa.TypeAssert); ok && sameParam(ta.X, fn.Params[1]) {
 					buf = ta
 					if ta.CommaOk {
 						for _, r := range refs(ta) {
